@@ -3,6 +3,7 @@ import os
 
 from . import kani as K
 from . import shapes as SH
+from . import findings as F
 
 
 class Obl:
@@ -38,12 +39,33 @@ LINES_FUNCS = ("grep_searcher::lines::locate", "lines::count", "lines::preceding
                "lines::LineStep::next", "lines::without_terminator")
 
 
-def unit(name, props, crate, module, desc, functions, timeout=180, tier="quick", interesting=()):
+def unit(name, props, crate, module, *a, **kw):
+    return _unit(name, props, crate, module, *a, **kw)
+
+
+def _unit(name, props, crate, module, desc="", functions=(), timeout=180, tier="quick", interesting=()):
     return Obl(name, props, crate, module + "::" + name, tier=tier, timeout=timeout,
                desc=desc, functions=functions, interesting=interesting)
 
 
+MATCHER = "grep-matcher"
+
 UNITS = [
+    unit("c19_find_cap_ref_unbraced", ["C19"], MATCHER, "interpolate::verif_kani",
+         "find_cap_ref on a fully symbolic <=5-byte buffer that is not a ${ reference agrees with the regex library's "
+         "reference grammar ($name = longest [0-9A-Za-z_]+ run; integer names are group numbers)",
+         ["interpolate::find_cap_ref", "interpolate::is_valid_cap_letter"], timeout=600),
+    unit("c19_find_cap_ref_braced_plain", ["C19"], MATCHER, "interpolate::verif_kani",
+         "find_cap_ref on symbolic ${...} buffers whose name bytes are in [0-9A-Za-z_}] agrees with the library",
+         ["interpolate::find_cap_ref"], timeout=600),
+    unit("c19_find_cap_ref_braced_any", ["C19"], MATCHER, "interpolate::verif_kani",
+         "find_cap_ref on fully symbolic ${... buffers agrees with the library (anything up to the closing brace)",
+         ["interpolate::find_cap_ref"], timeout=600),
+    unit("c19_interpolate_diff", ["C19"], MATCHER, "interpolate::verif_kani::diff",
+         "grep_matcher::interpolate == regex_automata::util::interpolate::bytes (the pinned 0.4.7) on every template "
+         "of <=3 symbols over {$,{,},1,2,a,-,0xFF}, 3 groups (one unset), one named",
+         ["interpolate::interpolate", "interpolate::find_cap_ref", "regex_automata::util::interpolate::bytes"],
+         timeout=1800, tier="thorough"),
     unit("lines_locate", ["C03", "C13"], SEARCHER, "lines::verif_kani",
          "lines::locate on fully symbolic <=6 bytes, any terminator, any span: minimal covering line range",
          ["lines::locate"], interesting=("interior line located",)),
@@ -150,6 +172,8 @@ SLOW_E2E_FUNCS = ("Searcher::search_slice", "SliceByLine::run", "Core::match_by_
                   "Core::sink_break_context", "Core::count_lines", "lines::without_terminator",
                   "lines::preceding", "LineStep::next", "lines::count")
 
+FAST_FUNCS = ("Core::match_by_line_fast", "Core::find_by_line_fast", "Core::match_by_line_fast_invert",
+              "Core::is_line_by_line_fast", "lines::locate") + SLOW_E2E_FUNCS
 READER_FUNCS = ("ReadByLine::run", "ReadByLine::fill", "Core::roll", "LineBuffer::fill", "LineBuffer::roll",
                 "LineBuffer::ensure_capacity", "LineBuffer::consume", "LineBufferReader::*") + SLOW_E2E_FUNCS
 MULTI_FUNCS = ("MultiLine::run", "MultiLine::sink", "MultiLine::sink_matched_inverted", "MultiLine::find",
@@ -170,6 +194,13 @@ FAMILIES = [
                 "slow line path end-to-end == grep model with passthru ON; symbolic hit table, invert, "
                 "line numbers, stop-on-nonmatch",
                 SLOW_E2E_FUNCS, timeout=600, rules=searcher_rules(2)),
+    ShapeFamily("c03_fast_ctx", ["C03", "C01"], SEARCHER, CORE_MOD, GEN,
+                "FAST line path end-to-end (match_by_line_fast, find_by_line_fast Confirmed+Candidate, fast_invert) == grep "
+                "model; symbolic hit/candidate/offset tables, A,B in 0..=2, invert, line numbers",
+                FAST_FUNCS, timeout=900, rules=searcher_rules(2)),
+    ShapeFamily("c03_fast_stop", ["C03", "C01"], SEARCHER, CORE_MOD, GEN,
+                "fast line path with stop-on-nonmatch ON (switch to the slow loop after the first match) == grep model",
+                FAST_FUNCS, timeout=900, rules=searcher_rules(2)),
     ShapeFamily("c02_reader_ctx", ["C02"], SEARCHER, CORE_MOD, GEN,
                 "ReadByLine over LineBufferReader, symbolic read sizes 1..=3, symbolic capacity 1..=4 (eager growth) "
                 "== grep model (== slice strategy); A,B in 0..=1, invert, line numbers",
@@ -222,6 +253,17 @@ def obligations(prop, tier, seed):
 # Engine K runner
 
 
+def scratch_edits(sc, crates):
+    """Scratch-only edits (never in /repo): extra dependencies that harnesses
+    of a crate need (the oracle library for differential harnesses)."""
+    if "grep-matcher" in crates:
+        ct = os.path.join(sc.repo, "crates", "matcher", "Cargo.toml")
+        s = open(ct).read()
+        if "regex-automata" not in s:
+            s = s.replace("[dependencies]\n", "[dependencies]\nregex-automata = { version = \"=0.4.7\", default-features = false, features = [\"std\", \"syntax\", \"meta\", \"nfa\"] }\n", 1)
+            open(ct, "w").write(s)
+
+
 def run_kani(group, ctx):
     results = []
     by_crate = {}
@@ -229,6 +271,7 @@ def run_kani(group, ctx):
         by_crate.setdefault(o.crate, []).append(o)
     with K.Scratch("k" + ctx["prop"]) as sc:
         sc.patch_memchr(extra_toml=EXTRA_TOML)
+        scratch_edits(sc, set(by_crate))
         # generated shape instantiations, per gen file, for ALL crates up front
         gens = {}
         for o in group:
@@ -281,7 +324,10 @@ def run_kani(group, ctx):
                 r["nontrivial"] = bool(
                     hr.status == K.OK and reach == "SATISFIED"
                     and all(hr.covers.get(c) == "SATISFIED" for c in o.interesting))
-                if hr.status == K.FAIL:
+                r["failed_checks"] = hr.failed[:8]
+                if hr.status == K.FAIL and F.match(F.load(), ctx["prop"], r) is not None:
+                    K.log("FAILED (matches a known finding, no replay needed)", o.name)
+                elif hr.status == K.FAIL:
                     K.log("FAILED", o.name, hr.failed[:3], "-> concrete playback")
                     pb = sc.playback(crate, o.harness, harness_timeout=max(600, 2 * o.timeout),
                                      cbmc_args=cbmc_args)
